@@ -552,6 +552,9 @@ def run_batch(spec):
 
 
 def run_replay(case):
+    if 'sched' in case:
+        # a schedule of the controlled-scheduler batch: the same scenario, loop quota and stopper quota again
+        return run_sched_batch({'kind': 'sched', 'scn': case['sched'], 'a1s': [case['plan'][2][1]], 'ks': [case['plan'][3][1]], 'lo': 0, 'hi': 0, 'step': 1})
     b = Batch(PROPERTY)
     evaluate_case(b, unjson(case))
     return b.result()
